@@ -117,6 +117,10 @@ pub fn generate(g: &mut G, index: u64) -> Scenario {
         entry: if owning { Entry::BuilderSpawnOwning } else { Entry::BuilderSpawn },
         ..Default::default()
     };
+    if g.chance(1, 4) {
+        // a `started()` that takes a while: handles may all be gone before it has returned
+        spec.on_start.push(if g.chance(1, 2) { Work::Sleep(g.range(10, 80)) } else { Work::Yield(g.range(1, 3) as u32) });
+    }
     for t in 0..g.below(3) {
         spec.on_start.push(Work::Timer(TimerSpec {
             id: t as u32,
@@ -178,6 +182,11 @@ pub fn generate(g: &mut G, index: u64) -> Scenario {
                 for _ in 0..g.below(3) {
                     progs[c].push(Op::Send { h: s, id: g.id(), work: g.light_work() });
                 }
+                if g.chance(1, 6) {
+                    // a subscription request that may still be on its way to the broker
+                    progs[c].push(Op::Send { h: s, id: g.id(), work: vec![Work::Subscribe(1)] });
+                    progs[c].push(Op::Yield(g.range(1, 5) as u32));
+                }
             }
             for s in fam.slots[c].of_kind(&[HKind::Addr, HKind::Sender, HKind::Caller]) {
                 progs[c].push(Op::Drop { h: s });
@@ -191,10 +200,10 @@ pub fn generate(g: &mut G, index: u64) -> Scenario {
                 }
                 fam.slots[c].set(s, None);
             }
-            if g.chance(1, 2) {
-                progs[c].push(Op::Sleep(g.range(5, 60)));
-            } else {
-                progs[c].push(Op::Yield(g.range(1, 4) as u32));
+            match g.below(3) {
+                0 => progs[c].push(Op::Sleep(g.range(5, 60))),
+                1 => progs[c].push(Op::Yield(g.range(1, 4) as u32)),
+                _ => {} // probe the weak handles at once
             }
             for s in fam.slots[c].of_kind(&[HKind::WeakAddr, HKind::WeakSender, HKind::WeakCaller]) {
                 let k = fam.slots[c].get(s).unwrap();
